@@ -220,6 +220,17 @@ let process (line : string) : string =
       match t with
       | "END" | "RESULT" | "EOF" -> continue := false
       | "NEWRUN" -> model := None; impl := None; shaken := false; decr k
+      | "RERUN" ->
+          (* run() again on the same evolution object: the summary starts afresh
+             (stats_.clear(); best = pop[{0,0}] and its score) *)
+          decr k;
+          let (p, _) = read_pop () in
+          (match p with
+           | { members = x0 :: _; _ } :: _ ->
+               let s0 = { pop = p; sm = { best_sol = x0; best_fit = x0.fit; last_imp = z_of_int 0; gen = z_of_int 0 } } in
+               model := Some s0; impl := Some s0
+           | _ -> model := None; impl := None);
+          shaken := false
       | "SHAKEN" -> shaken := true; decr k
       | "CB" ->
           incr ncb;
